@@ -3,6 +3,7 @@ package main
 import (
 	"fmt"
 	"go/types"
+	"math/big"
 	"sort"
 	"strings"
 
@@ -75,6 +76,7 @@ func (eng *Engine) VerifyFunction(fn *ssa.Function, con *Contract) (fx *FuncExec
 				return fx, err
 			}
 			fx.addFact(reach, t)
+			fx.rangesFrom(t)
 		}
 	}
 	nreq := len(fx.facts)
@@ -89,49 +91,123 @@ func (eng *Engine) VerifyFunction(fn *ssa.Function, con *Contract) (fx *FuncExec
 	if er.isFalse() {
 		return fx, nil
 	}
+	rets := fx.lastRets
 	if con != nil {
 		pe := env(exit)
 		pe.reach = er
 		fx.bindResults(pe, fn, results)
-		// case splits: conditions over the entry state; each postcondition is proved once per case
-		cases := []struct {
+		// case splits: conditions over the entry state
+		type ccase struct {
 			name string
 			cond *Term
-		}{{"", ts.True()}}
+		}
+		cases := []ccase{{"", ts.True()}}
 		for _, sc := range con.Splits {
-			se := env(fx.entry)
-			t, err := fx.evalClause(sc, se)
+			t, err := fx.evalClause(sc, env(fx.entry))
 			if err != nil {
 				fx.addObl("shape", "split", err.Error(), er, ts.False())
 				continue
 			}
-			var next []struct {
-				name string
-				cond *Term
-			}
+			var next []ccase
 			for _, c := range cases {
-				next = append(next, struct {
-					name string
-					cond *Term
-				}{c.name + "1", ts.And(c.cond, t)}, struct {
-					name string
-					cond *Term
-				}{c.name + "0", ts.And(c.cond, ts.Not(t))})
+				next = append(next, ccase{c.name + "1", ts.And(c.cond, t)}, ccase{c.name + "0", ts.And(c.cond, ts.Not(t))})
 			}
 			cases = next
 		}
+		// each `cases` directive is a group of alternatives; groups multiply
+		for gi, raw := range con.Cases {
+			var all []*Term
+			var next []ccase
+			i := 0
+			for _, m := range splitTop(raw.Expr, ';') {
+				if m = strings.TrimSpace(m); m == "" {
+					continue
+				}
+				t, err := fx.evalClause(Clause{Label: "case", Expr: m, Line: raw.Line, File: raw.File}, env(fx.entry))
+				if err != nil {
+					fx.addObl("shape", "cases", err.Error(), er, ts.False())
+					continue
+				}
+				all = append(all, t)
+				for _, c := range cases {
+					next = append(next, ccase{fmt.Sprintf("%s.%d", c.name, i), ts.And(c.cond, t)})
+				}
+				i++
+			}
+			cases = next
+			fx.addObl("post", fmt.Sprintf("cases-exhaustive%d", gi), "the listed cases cover every input", er, ts.Or(all...))
+		}
+		// opt chain=true: a postcondition may use the ones listed before it as lemmas (all of them
+		// have to be proved for the function to pass, so this is the usual proof of a conjunction)
+		chain := con.Opts["chain"] == "true"
+		// opt perreturn=true: prove each postcondition separately on every return path (no merged exit state)
+		perRet := con.Opts["perreturn"] == "true" && len(rets) > 1
+		type site struct {
+			name  string
+			reach *Term
+			env   *cenv
+		}
+		sites := []site{{"", er, pe}}
+		if perRet {
+			sites = nil
+			for i, r := range rets {
+				e := env(r.state)
+				e.reach = r.reach
+				fx.bindResults(e, fn, r.vals)
+				sites = append(sites, site{fmt.Sprintf("|ret%d", i), r.reach, e})
+			}
+		}
+		provedAt := make([][]*Term, len(sites))
 		for _, c := range con.Ensures {
-			t, err := fx.evalClause(c, pe)
-			if err != nil {
-				fx.addObl("shape", "post:"+c.Label, err.Error(), er, ts.False())
+			var subs []*Obligation
+			var whole *Term
+			failed := false
+			for si, stt := range sites {
+				t, err := fx.evalClause(c, stt.env)
+				if err != nil {
+					fx.addObl("shape", "post:"+c.Label, err.Error(), er, ts.False())
+					failed = true
+					break
+				}
+				base := stt.reach
+				if chain {
+					base = ts.And(append([]*Term{stt.reach}, provedAt[si]...)...)
+				}
+				provedAt[si] = append(provedAt[si], t)
+				if !perRet {
+					whole = ts.Implies(base, t)
+				}
+				for _, cs := range cases {
+					if cs.name == "" && !perRet {
+						continue
+					}
+					g := ts.Implies(ts.And(base, cs.cond), t)
+					nm := c.Label + stt.name
+					if cs.name != "" {
+						nm += "|case" + cs.name
+					}
+					sub := &Obligation{Name: shortFuncName(fn) + "/post:" + nm, Kind: "post", Func: shortFuncName(fn), Label: nm,
+						Goal: g, NFacts: len(fx.facts), fx: fx, Src: c.Expr, Props: con.Props}
+					if g.isTrue() {
+						sub.Status, sub.Solver = "proved", "simplifier"
+					}
+					subs = append(subs, sub)
+				}
+			}
+			if failed {
 				continue
 			}
-			for _, cs := range cases {
-				lab := c.Label
-				if cs.name != "" {
-					lab += "|case" + cs.name
+			if whole == nil {
+				whole = ts.False() // per-return mode: the parent only aggregates
+			}
+			parent := fx.addObl("post", c.Label, c.Expr, ts.True(), whole)
+			if parent != nil && len(subs) > 0 {
+				if perRet {
+					parent.Status, parent.OnlySubs = "", true
 				}
-				fx.addObl("post", lab, c.Expr, ts.And(er, cs.cond), t)
+				if parent.Status == "" {
+					parent.Sub = subs
+				}
 			}
 		}
 		fx.frameObligations(fn, con, er, exit)
@@ -608,4 +684,53 @@ func (fx *FuncExec) havocWindow(st *State, reach *Term, hk string, arr, off, n *
 		ts.Implies(ts.Or(ts.Lt(j, off), ts.Le(ts.Add(off, n), j)), ts.Eq(ts.Select(nw, j), ts.Select(old, j))),
 		ts.Select(nw, j)))
 	fx.heapSet(st, hk, ts.Store(h, arr, nw))
+}
+
+// rangesFrom records constant bounds on variables stated by a precondition
+// (conjuncts of the form c <= x, x <= c, x < c) as structural ranges.
+func (fx *FuncExec) rangesFrom(t *Term) {
+	ts := fx.ts
+	var cs []*Term
+	if t.op == "and" {
+		cs = t.args
+	} else {
+		cs = []*Term{t}
+	}
+	for _, c := range cs {
+		if (c.op != "<=" && c.op != "<") || len(c.args) != 2 {
+			continue
+		}
+		a, b := c.args[0], c.args[1]
+		strict := c.op == "<"
+		switch {
+		case a.isInt() && b.op == "var":
+			lo := new(big.Int).Set(a.ival)
+			if strict {
+				lo.Add(lo, bigOne)
+			}
+			if b.lo == nil || b.lo.Cmp(lo) < 0 {
+				b.lo = lo
+			}
+		case b.isInt() && a.op == "var":
+			hi := new(big.Int).Set(b.ival)
+			if strict {
+				hi.Sub(hi, bigOne)
+			}
+			if a.hi == nil || a.hi.Cmp(hi) > 0 {
+				a.hi = hi
+			}
+		}
+	}
+	_ = ts
+}
+
+// specPrelude is the text of the spec files whose functions this function's VCs use.
+func (fx *FuncExec) specPrelude() string {
+	var sb strings.Builder
+	for _, f := range fx.eng.specOrder {
+		if fx.specUsed[f] {
+			sb.WriteString(fx.eng.specFiles[f])
+		}
+	}
+	return sb.String()
 }
